@@ -10,6 +10,7 @@ import (
 	"fmt"
 	"net/http"
 	"net/url"
+	"strings"
 	"time"
 
 	"github.com/WICG/webpackage/go/signedexchange"
@@ -99,7 +100,17 @@ func (s *SXGSpec) Build() (*signedexchange.Exchange, *signedexchange.Signer, err
 	cu, _ := url.Parse(s.ID.CertURL)
 	vu, err := url.Parse(s.ValidityURL)
 	if err != nil {
-		return nil, nil, err
+		// a validity URL that does not parse (bad port, unclosed IPv6 literal): a signer that assembles its url.URL by hand, or
+		// another implementation, still puts such a string under the signature; String() reproduces it when only the host is odd
+		rest, ok := strings.CutPrefix(s.ValidityURL, "https://")
+		i := strings.IndexByte(rest, '/')
+		if !ok || i < 0 {
+			return nil, nil, err
+		}
+		vu = &url.URL{Scheme: "https", Host: rest[:i], Path: rest[i:]}
+		if vu.String() != s.ValidityURL {
+			return nil, nil, err
+		}
 	}
 	signer := &signedexchange.Signer{Date: s.Date, Expires: s.Expires, Certs: s.ID.Certs, CertUrl: cu, ValidityUrl: vu, PrivKey: s.ID.Key}
 	if s.Shared != nil {
